@@ -9,4 +9,8 @@ def load(pid: str):
     if pid not in ALL:
         raise KeyError(f"unknown property {pid}")
     mod = importlib.import_module(f"vf.props.{pid.lower()}")
-    return mod.PROP
+    prop = mod.PROP
+    extra = getattr(mod, "RULE_EXTRA", "")
+    if extra and extra not in prop.rule:
+        prop.rule = prop.rule + " Strata added during validation (DESIGN.md 7.1): " + extra
+    return prop
